@@ -106,5 +106,29 @@ def run(ck):
     eng = ck.engine()
     ck.decide('to_yaml: emits the geometric block, offsets, sign corrections and a TOP-LEVEL dof entry (where the reader and the documentation look)', eng, [], z3.BoolVal(not ok), tcase, nomodel_case=tcase)
 
+    # the offset formatter of to_yaml: the bare literal 0 (which reads back as exactly 0) is written only for an offset that IS zero at the printed precision
+    # (4 decimals of a degree); every other offset goes through deg(<degrees>)
+    eng = ck.engine()
+    eng.model(r'^<str as std::string::ToString>::to_string$', lambda e, st_, fr, f, a, m: [(st_, e.deref(st_, a[0]))], front=True)
+    todeg = []
+    def to_degrees(e, st_, fr, f, a, m):
+        v = e.binop('Mul', a[0], F(PI / 180)) if False else F(a[0].v * 180 / PI, a[0].nan, a[0].inf); todeg.append((a[0], v)); return [(st_, v)]
+    eng.model(r'core::f64::<impl f64>::to_degrees$', to_degrees, front=True)
+    st = eng.new_state(); x = z3.Real('offset'); st.assume(z3.And(x >= -7, x <= 7))
+    dname = [n for n in eng.bodies if n.endswith('utils::deg') or n == 'utils::deg']
+    if len(dname) != 1: raise Inconclusive(f'utils::deg: {len(dname)} candidates')
+    res = eng.call_body(st, eng.bodies[dname[0]], [eng.tmp_ref(st, 0, F(x))])
+    ck.states += len(res); lit = 0; fmt = 0
+    for s1, out in res:
+        if isinstance(out, StrV):
+            lit += 1
+            ck.decide(f'to_yaml offset formatter: the bare literal {out.s!r} is written only for an offset that is zero at the printed precision (|x| < 0.00005 deg)', eng, list(s1.pc),
+                      z3.Or(x * 180 / PI >= z3.Q(5, 100000), x * 180 / PI <= -z3.Q(5, 100000)) if out.s.strip() in ('0', '0.0') else z3.BoolVal(True), tcase, nomodel_case=tcase, vary=[x])
+        else:
+            fmt += 1
+            okd = len(todeg) == 1 and same(todeg[0][0], F(x))
+            ck.decide('to_yaml offset formatter: every other offset is written as deg(<the offset converted to degrees>)', eng, list(s1.pc), z3.BoolVal(not okd), tcase, nomodel_case=tcase)
+    ck.decide('to_yaml offset formatter: both forms are reachable', eng, [], z3.BoolVal(lit == 0 or fmt == 0), tcase, nomodel_case=tcase)
+
 if __name__ == '__main__':
     main(run, 'C19')
